@@ -163,12 +163,13 @@ Definition valid_params (p : params) : bool :=
   negb (negb (pAlgo p =? 0) && (pMaxPoints p <? 2)) &&
   negb ((1 <? popcount_byte (pThreads p)) || (16 <? pThreads p)).
 
-(** createPredictor: a new predictor for algorithm 1 or 2, otherwise the old one stays *)
+(** createPredictor: a new predictor for algorithm 1 or 2, none otherwise (with the repair: selecting
+    "no promises" removes the installed predictor; [old] is kept as an argument for reference only) *)
 Definition create_predictor (old : pred_state N) (p : params) : pred_state N :=
   let a := Z.land (pAlgo p) paMask in
   if a =? 1 then match new_bestfit (pMaxPoints p) (pSmoothWindow p) with Some b => PLinear b | None => PNone end
   else if a =? 2 then match new_polyfit (pMaxPoints p) (pSmoothWindow p) (pDegree p) with Some q => PPoly q | None => PNone end
-  else old.
+  else PNone.
 
 Definition set_params (a : admin) (p : params) : admin + eng_err :=
   if valid_params p then
